@@ -491,10 +491,10 @@ def mk(i, k, **kw):
 # --------------------------------------------------------------------------
 # generic family check: model check the design, export, replay, validate
 # --------------------------------------------------------------------------
-def model_check_family(rep, family, tier, deviations=(), export=True, workers=8, **over):
+def model_check_family(rep, family, tier, deviations=(), export=True, workers=8, max_replay=None, on_replay=None, **over):
     cfg = mc_cfg(family, deviations, export=export, **over)
     r = vlib.run_tlc("MC_Interp", cfg, f"{family}-{'-'.join(deviations) or 'design'}", workers=workers,
-                     timeout=1500 if tier == "thorough" else 600)
+                     timeout=3000 if tier == "thorough" else 600, max_replay=max_replay, on_replay=on_replay)
     if not deviations:
         if not r.ok:
             raise vlib.ToolError(f"design model of family {family} violates {r.violated}: specification error")
@@ -638,17 +638,24 @@ def standard_compare(check_items=True, check_rng=False):
 AS_BUILT = ("LateEnv", "AtomicGroupRetry", "StaleLookup")
 
 
-def deviation_predictions(rep, family, devsets, **over):
+def deviation_predictions(rep, family, devsets, wanted=None, tier="quick", **over):
     """For each deviation set (tuple of names) run the model with it and index
     its predictions by document.  Used to recognise a listed known finding
     semantically: the implementation does what the specification predicts
     for that deviation, and not what the design predicts."""
     out = {}
     for ds in devsets:
-        r = model_check_family(rep, family, "quick", deviations=ds, export=True, **over)
-        out["+".join(ds)] = {doc_key(x): x for x in r.replay}
+        # (only the predictions for the documents that are replayed are kept: `wanted`)
+        keep = {}
+
+        def pick(x, keep=keep):
+            k = doc_key(x)
+            if wanted is None or k in wanted:
+                keep[k] = x
+        r = model_check_family(rep, family, tier, deviations=ds, export=True, on_replay=pick, max_replay=0, **over)
+        out["+".join(ds)] = keep
         rep.notes.setdefault("deviation_runs", []).append(
-            {"family": family, "deviations": list(ds), "documents": len(r.replay), "states": r.distinct})
+            {"family": family, "deviations": list(ds), "documents": r.exported, "states": r.distinct})
     return out
 
 
@@ -722,12 +729,16 @@ def family_check(rep, family, tier, seed, compare, over_quick, over_thorough, de
                  sample_thorough=40000, tag=None, trace_budget=None, need_outcomes=()):
     rnd = random.Random(seed)
     over = over_thorough if tier == "thorough" else over_quick
-    r = model_check_family(rep, family, tier, **over)
-    rep.bounds[family] = {k: (sorted(v) if isinstance(v, set) else v) for k, v in constants(family, **over).items()}
     classes = {}
-    for x in r.replay:
+
+    def count(x):
         key = x["res"] + ("/retried" if x["passes"] else "")
         classes[key] = classes.get(key, 0) + 1
+    # (the thorough bounds export millions of documents: statistics are taken over all of them as
+    # they stream by, a uniform reservoir is kept for stratification and replay)
+    r = model_check_family(rep, family, tier, on_replay=count,
+                           max_replay=(max(200000, 3 * sample_thorough) if tier == "thorough" else None), **over)
+    rep.bounds[family] = {k: (sorted(v) if isinstance(v, set) else v) for k, v in constants(family, **over).items()}
     rep.notes.setdefault("outcome_classes", {})[family] = classes
     for need in need_outcomes:
         if need not in classes and not (need.find("/") < 0 and any(k.split("/")[0] == need for k in classes)):
@@ -753,8 +764,9 @@ def family_check(rep, family, tier, seed, compare, over_quick, over_thorough, de
             rest += g[n:]
         rnd.shuffle(rest)
         recs = picked + rest[:max(0, limit - len(picked))]
-    rep.notes.setdefault("replayed", {})[family] = {"exported": len(r.replay), "replayed": len(recs), "all": exhaustive}
-    preds = deviation_predictions(rep, family, devsets, **over) if devsets else None
+    rep.notes.setdefault("replayed", {})[family] = {"exported": r.exported or len(r.replay), "kept_for_sampling": len(r.replay),
+                                                    "replayed": len(recs), "all": exhaustive and (r.exported or 0) <= len(r.replay)}
+    preds = deviation_predictions(rep, family, devsets, wanted={doc_key(x) for x in recs}, tier=tier, **over) if devsets else None
     replay_records(rep, recs, rnd.random(), tier, compare, variants=2, tag=tag or ("f" + family),
                    trace_budget=trace_budget or (80000 if tier == "thorough" else 25000), deviation_preds=preds)
     rep.last_preds = preds
